@@ -681,3 +681,18 @@ def refactor_main(args: Any) -> int:
         with open(out, "w") as f:
             json.dump({"rewrites": len(res), "false_alarms": bad, "undecided": und}, f, indent=1)
     return 0 if not bad else 2
+
+
+def refactor_summary_for(pid: str, args: Any) -> Dict[str, Any]:
+    """Thorough tier: refactor fuzz restricted to one property (informational)."""
+    jobs = refactor_jobs(args.repo, pid)
+    with ProcessPoolExecutor(max_workers=max(1, min(getattr(args, "jobs", 16), 16))) as ex:
+        res = list(ex.map(_refactor_one, [(args.repo, j) for j in jobs], chunksize=2))
+    bad = [r for r in res if r["result"] == "FALSE-ALARM"]
+    und = [r for r in res if r["result"] in ("undecided", "error")]
+    kinds: Dict[str, int] = {}
+    for r in res:
+        k = r["variant"].split(" ")[0]
+        kinds[k] = kinds.get(k, 0) + 1
+    return {"rewrites": len(res), "by_kind": kinds, "false_alarms": [f"{r['variant']}: {r['fired']}" for r in bad], "undecided": [r["variant"] for r in und],
+            "summary": f"{len(res)} behaviour-preserving rewrites ({', '.join(f'{k} {v}' for k, v in sorted(kinds.items()))}), {len(bad)} false alarms, {len(und)} undecided"}
